@@ -305,13 +305,14 @@ pub fn run(ctx: &Ctx) -> i32 {
   // positions for hash_with_dxdy
   let b = if quick { 3 } else { 6 };
   let mut nodes: Vec<((f64, f64), bool)> = plane_nodes(b).into_iter().map(|p| (p, false)).collect();
-  for d in 0..30u8 {
+  let border_depths: Vec<u8> = if quick { vec![0, 1, 2, 3, 4, 6, 8, 11, 14, 17, 20, 23, 26, 28, 29] } else { (0..30).collect() };
+  for &d in &border_depths {
     for p in deep_border_nodes(d) {
       nodes.push((p, true));
     }
   }
-  for &(lon, lat) in generic_points().iter() {
-    nodes.push((ref_proj(lon, lat), false));
+  for &(lon, lat) in generic_points().iter().chain(fibonacci_points(if quick { 1000 } else { 20_000 }).iter()) {
+    nodes.push((ref_proj(lon, lat), true));
   }
   let chunk = 128;
   let mut lo = 0;
@@ -376,7 +377,8 @@ pub fn run(ctx: &Ctx) -> i32 {
   });
   for d in 0..30u8 {
     let nh = n_hash(d);
-    for h in [nh, nh + 1, 1u64 << 63, u64::MAX, (13u64 << (2 * d as u32)) | 1] {
+    let _ = nh;
+    for h in out_of_range_hashes(d) {
       total.stratum("out-of-range", 1, 9);
       for v in check_bad_hash(d, h) {
         total.viol(v);
@@ -388,7 +390,7 @@ pub fn run(ctx: &Ctx) -> i32 {
     total,
     json!({"exhaustive_depths": format!("0..={}", d_exh), "class_depths": format!("{}..=29", d_exh + 1),
       "per_cell": "centre, 5x5 interior offsets, 4 vertices x 4 accessors, edge paths (n=1,3,4 x 2 directions x 4 starts), grids (n=1,4)",
-      "positions": format!("plane lattice 2^-{} with 5x5 ulp nudges and 7 turns + border classes of every depth (3x3 nudges), x 30 depths", b)}),
+      "positions": format!("plane lattice 2^-{} with 5x5 ulp nudges and 7 turns + border classes of depths {:?} (3x3 nudges) + Fibonacci-lattice points, x 30 depths", b, border_depths)}),
     "all cells of the exhaustive depths and the border-class cells of deeper depths for the cell-level accessors; all alphabet positions x 30 depths for hash_with_dxdy",
     vec!["reference projection R1 and lattice model R2".into(), "inward nudges of 1e-3 of the cell half-diagonal for border points".into()],
     Map::new(),
